@@ -4,33 +4,17 @@ use crate::support::*;
 use core::cmp::Ordering;
 pub mod ty {
     #![deny(warnings)]
-    #![allow(dead_code, unused_imports)]
+    #![allow(dead_code, unused_imports, non_snake_case)]
     use crate::support::{A, B, C, Good, Bad, m_eq, m_cmp, m_pcmp, m_hash, m_fmt, m_clone, m_clone_c, m_into, g_eq, g_cmp, g_pcmp, g_hash, g_fmt};
     use educe::Educe;
-
-    // names at the derive site that shadow everything the generated code might be tempted to write unqualified
-    #[allow(non_camel_case_types)] pub struct Option; pub struct Result; pub struct Ordering; pub struct Clone; pub struct Copy;
-    pub struct Default; pub struct Debug; pub struct PartialEq; pub struct Eq; pub struct PartialOrd; pub struct Ord; pub struct Hash;
-    pub struct Hasher; pub struct Into; pub struct From; pub struct Deref; pub struct DerefMut; pub struct Formatter; pub struct String;
-    pub struct Vec; pub struct Box; pub struct PhantomData; pub struct Sized; pub struct Send; pub struct Iterator; pub struct Self_;
-    #[allow(non_snake_case)] pub fn Some() {} #[allow(non_snake_case)] pub fn None() {} #[allow(non_snake_case)] pub fn Ok() {} #[allow(non_snake_case)] pub fn Err() {}
-    pub fn drop() {} pub mod core {} pub mod std {} pub mod alloc {} pub mod fmt {} pub mod cmp {} pub mod hash {} pub mod clone {} pub mod marker {}
-    #[allow(unused_macros)] macro_rules! stringify { ($($t:tt)*) => { "SHADOWED" } }
-    #[allow(unused_macros)] macro_rules! unreachable { ($($t:tt)*) => { () } }
-    #[allow(unused_macros)] macro_rules! panic { ($($t:tt)*) => { () } }
-    #[allow(unused_macros)] macro_rules! matches { ($($t:tt)*) => { true } }
-    #[allow(unused_macros)] macro_rules! write { ($($t:tt)*) => { () } }
-    #[allow(unused_macros)] macro_rules! format_args { ($($t:tt)*) => { () } }
-    #[allow(unused_macros)] macro_rules! assert { ($($t:tt)*) => { () } }
 #[derive(Educe)]
-#[repr(C)]
-#[educe(Eq, PartialOrd, PartialEq)]
-pub enum T { Unit, Some { f: A<0>, #[educe(PartialOrd(rank = "+0"))] builder: A<1>, #[educe(PartialOrd(method = m_pcmp, rank(7)))] r#type: A<0>, #[educe(PartialOrd(ignore = true))] state: A<3> } }
+#[educe(Eq, PartialEq, Ord, PartialOrd)]
+pub enum T { Some(#[educe(Ord(rank(2)))] A<0>, #[educe(Ord = false)] A<0>, A<2>, #[educe(Ord(method = "m_cmp"))] A<0>), Zed { #[educe(Ord(rank(-3)))] state: A<0>, #[educe(Ord(rank = -6))] b: A<1> } }
 }
 pub use ty::T;
 
-pub fn values() -> Vec<T> { vec![T::Unit, T::Some { f: A(7), builder: A(0), r#type: A(0), state: A(0) }, T::Some { f: A(7), builder: A(7), r#type: A(0), state: A(7) }, T::Some { f: A(1), builder: A(0), r#type: A(0), state: A(7) }, T::Some { f: A(1), builder: A(7), r#type: A(0), state: A(0) }, T::Some { f: A(1), builder: A(1), r#type: A(7), state: A(1) }, T::Some { f: A(1), builder: A(7), r#type: A(0), state: A(7) }, T::Some { f: A(7), builder: A(0), r#type: A(1), state: A(7) }, T::Some { f: A(1), builder: A(7), r#type: A(7), state: A(7) }, T::Some { f: A(7), builder: A(7), r#type: A(7), state: A(7) }, T::Some { f: A(7), builder: A(7), r#type: A(0), state: A(1) }, T::Some { f: A(0), builder: A(1), r#type: A(1), state: A(1) }, T::Some { f: A(0), builder: A(7), r#type: A(1), state: A(1) }, T::Some { f: A(1), builder: A(7), r#type: A(1), state: A(0) }, T::Some { f: A(7), builder: A(7), r#type: A(1), state: A(0) }, T::Some { f: A(7), builder: A(1), r#type: A(1), state: A(7) }, T::Some { f: A(1), builder: A(0), r#type: A(0), state: A(0) }, T::Some { f: A(7), builder: A(1), r#type: A(0), state: A(1) }, T::Some { f: A(0), builder: A(0), r#type: A(7), state: A(7) }] }
-pub fn show(x: &T) -> String { #[allow(unused_variables)] match x { T::Unit => format!("Unit()"), T::Some { f: p0, builder: p1, r#type: p2, state: p3 } => format!("Some({},{},{},{})", sv(p0), sv(p1), sv(p2), sv(p3)) } }
-pub fn o_disc(x: &T) -> i128 { match x { T::Unit => 0, T::Some { f: _, builder: _, r#type: _, state: _ } => 1 } }
-pub fn o_pcmp(a: &T, b: &T) -> Option<Ordering> { match (a, b) { (T::Unit, T::Unit) => {  Some(Ordering::Equal) }, (T::Some { f: a0, builder: a1, r#type: a2, state: a3 }, T::Some { f: b0, builder: b1, r#type: b2, state: b3 }) => { match ::core::cmp::PartialOrd::partial_cmp(a0, b0) { Some(Ordering::Equal) => (), x => return x } match ::core::cmp::PartialOrd::partial_cmp(a1, b1) { Some(Ordering::Equal) => (), x => return x } match m_pcmp(a2, b2) { Some(Ordering::Equal) => (), x => return x } Some(Ordering::Equal) }, _ => Some(o_disc(a).cmp(&o_disc(b))) } }
-pub fn run(out: &mut Out) { let vs = values(); for (i, a) in vs.iter().enumerate() { for (j, b) in vs.iter().enumerate() { let e = o_pcmp(a, b); let g = ::core::cmp::PartialOrd::partial_cmp(a, b); out.check(g == e, "ord_17", "partial_cmp", || format!("partial_cmp({}, {}) = {:?} expected {:?}", show(a), show(b), g, e)); } } }
+pub fn values() -> Vec<T> { vec![T::Some(A(7), A(7), A(1), A(0)), T::Some(A(7), A(0), A(7), A(1)), T::Some(A(1), A(0), A(0), A(0)), T::Some(A(0), A(1), A(1), A(7)), T::Some(A(1), A(1), A(0), A(0)), T::Some(A(1), A(1), A(1), A(7)), T::Some(A(1), A(7), A(1), A(1)), T::Some(A(7), A(0), A(0), A(0)), T::Some(A(7), A(1), A(7), A(0)), T::Some(A(7), A(0), A(7), A(7)), T::Some(A(1), A(0), A(7), A(1)), T::Some(A(0), A(0), A(1), A(7)), T::Some(A(0), A(0), A(7), A(7)), T::Some(A(0), A(7), A(0), A(0)), T::Some(A(0), A(7), A(7), A(0)), T::Some(A(1), A(0), A(7), A(7)), T::Some(A(0), A(0), A(1), A(0)), T::Some(A(7), A(7), A(0), A(7)), T::Zed { state: A(0), b: A(0) }, T::Zed { state: A(0), b: A(1) }, T::Zed { state: A(0), b: A(7) }, T::Zed { state: A(1), b: A(0) }, T::Zed { state: A(1), b: A(1) }, T::Zed { state: A(1), b: A(7) }, T::Zed { state: A(7), b: A(0) }, T::Zed { state: A(7), b: A(1) }, T::Zed { state: A(7), b: A(7) }] }
+pub fn show(x: &T) -> String { #[allow(unused_variables)] match x { T::Some(p0, p1, p2, p3) => format!("Some({},{},{},{})", sv(p0), sv(p1), sv(p2), sv(p3)), T::Zed { state: p0, b: p1 } => format!("Zed({},{})", sv(p0), sv(p1)) } }
+pub fn o_disc(x: &T) -> i128 { match x { T::Some(_, _, _, _) => 0, T::Zed { state: _, b: _ } => 1 } }
+pub fn o_cmp(a: &T, b: &T) -> Ordering { match (a, b) { (T::Some(a0, a1, a2, a3), T::Some(b0, b1, b2, b3)) => { let c = ::core::cmp::Ord::cmp(a2, b2); if c != Ordering::Equal { return c; } let c = m_cmp(a3, b3); if c != Ordering::Equal { return c; } let c = ::core::cmp::Ord::cmp(a0, b0); if c != Ordering::Equal { return c; } Ordering::Equal }, (T::Zed { state: a0, b: a1 }, T::Zed { state: b0, b: b1 }) => { let c = ::core::cmp::Ord::cmp(a1, b1); if c != Ordering::Equal { return c; } let c = ::core::cmp::Ord::cmp(a0, b0); if c != Ordering::Equal { return c; } Ordering::Equal }, _ => o_disc(a).cmp(&o_disc(b)) } }
+pub fn run(out: &mut Out) { let vs = values(); for (i, a) in vs.iter().enumerate() { for (j, b) in vs.iter().enumerate() { let e = o_cmp(a, b); let g = ::core::cmp::Ord::cmp(a, b); out.check(g == e, "ord_17", "cmp", || format!("cmp({}, {}) = {:?} expected {:?}", show(a), show(b), g, e)); let g2 = ::core::cmp::PartialOrd::partial_cmp(a, b); out.check(g2 == Some(e), "ord_17", "partial_is_some_cmp", || format!("partial_cmp({}, {}) = {:?} expected Some({:?})", show(a), show(b), g2, e)); } } }
